@@ -63,6 +63,10 @@ pub struct Layout {
     pub empty_every: usize,
     pub empty_last: bool,
     pub eof_marker: bool,
+    /// additional empty blocks in front of the data (several hundred of them exceed a reader's
+    /// first 8 KiB buffer before any payload byte appears)
+    #[serde(default)]
+    pub leading_empty_blocks: u16,
 }
 
 impl Layout {
@@ -74,6 +78,7 @@ impl Layout {
             empty_every: 0,
             empty_last: false,
             eof_marker: true,
+            leading_empty_blocks: 0,
         }
     }
 }
@@ -123,6 +128,10 @@ pub fn compress(data: &[u8], layout: &Layout) -> (Vec<u8>, usize) {
         out.extend(block(&[], layout.level));
         blocks += 1;
     }
+    for _ in 0..layout.leading_empty_blocks {
+        out.extend(block(&[], layout.level));
+        blocks += 1;
+    }
     let b = boundaries(data, &layout.cuts);
     for (i, w) in b.windows(2).enumerate() {
         out.extend(block(&data[w[0]..w[1]], layout.level));
@@ -152,7 +161,7 @@ mod tests {
         let data: Vec<u8> = (0..200_000u32).map(|i| (i % 251) as u8).collect();
         for layout in [
             Layout::plain(),
-            Layout { cuts: Cuts::Sizes(vec![1, 7, 65280, 300]), level: 0, empty_first: true, empty_every: 2, empty_last: true, eof_marker: false },
+            Layout { cuts: Cuts::Sizes(vec![1, 7, 65280, 300]), level: 0, empty_first: true, empty_every: 2, empty_last: true, eof_marker: false, leading_empty_blocks: 300 },
         ] {
             let (bytes, _) = compress(&data, &layout);
             let mut d = flate2::read::MultiGzDecoder::new(&bytes[..]);
@@ -183,13 +192,15 @@ pub fn layout_strategy() -> impl Strategy<Value = Layout> {
         prop_oneof![3 => Just(0usize), 1 => 1usize..=3],
         prop::bool::weighted(0.2),
         prop::bool::weighted(0.7),
+        prop_oneof![12 => Just(0u16), 2 => 1u16..=3, 1 => 290u16..=420],
     )
-        .prop_map(|(cuts, level, empty_first, empty_every, empty_last, eof_marker)| Layout {
+        .prop_map(|(cuts, level, empty_first, empty_every, empty_last, eof_marker, leading_empty_blocks)| Layout {
             cuts,
             level,
             empty_first,
             empty_every,
             empty_last,
             eof_marker,
+            leading_empty_blocks,
         })
 }
